@@ -18,6 +18,7 @@ import (
 	"time"
 
 	"github.com/daeuniverse/dae/common"
+	"github.com/daeuniverse/dae/common/consts"
 	componentdns "github.com/daeuniverse/dae/component/dns"
 	"github.com/daeuniverse/dae/config"
 	dnsmessage "github.com/miekg/dns"
@@ -239,6 +240,57 @@ func c10CtlRun(cs c10CtlCase) (res c10CtlResult) {
 			jnow := time.Now().Add(time.Duration(op.AtSec) * time.Second)
 			stepNow = jnow.UnixNano()
 			ctrl.evictExpiredDnsCache(jnow)
+		case "reload_reuse":
+			// staged reload WITH controller reuse, in the order ControlPlane.Serve uses: snapshot of the cache,
+			// new generation (fresh core/tracker, cleared kernel map), the REAL replayDnsReloadCache into the new
+			// generation's temporary controller, then ReuseDNSControllerFrom: the running controller and its
+			// cache are adopted.  Same rule set (the reused cache keeps its bitmaps).
+			prev := cp
+			prev.dnsController = ctrl
+			snapshot := ctrl.CloneCacheForReload()
+			core = &controlPlaneCore{domainRouting: newDomainRoutingTracker()}
+			core.bpf.Store(&bpfObjects{})
+			for k := range shadow {
+				delete(shadow, k)
+			}
+			next := &ControlPlane{core: core, log: lg, ctx: context.Background(),
+				controlPlaneGenerationState: controlPlaneGenerationState{routingMatcher: &RoutingMatcher{domainMatcher: c10CtlMatcher(bitmapOf)}}}
+			next.dnsRouting = routing
+			tmpOpt := next.dnsControllerOption()
+			tmpOpt.NewCache = newCache
+			tmpOpt.MaxCacheSize = cs.MaxCacheSize
+			tmpOpt.OptimisticCache = cs.OptimisticCache
+			tmpOpt.OptimisticCacheTtl = cs.OptimisticCacheTtl
+			tmp, errT := NewDnsController(routing, tmpOpt)
+			if errT != nil {
+				panic(errT)
+			}
+			next.dnsController = tmp
+			next.pendingDnsReloadCache = snapshot
+			callsBefore := countCalls()
+			next.replayDnsReloadCache()
+			// quiescence: one observer call per entry the replay restored into the temporary controller
+			deadline := time.Now().Add(3 * time.Second)
+			for time.Now().Before(deadline) {
+				restored, pending := 0, 0
+				tmp.dnsCache.Range(func(_, v any) bool {
+					restored++
+					c := v.(*DnsCache)
+					if h := c.ComputeBpfDataHash(); h != 0 && c.lastBpfDataHash.Load() != h {
+						pending++
+					}
+					return true
+				})
+				if pending == 0 && countCalls()-callsBefore >= restored {
+					break
+				}
+				time.Sleep(200 * time.Microsecond)
+			}
+			if !next.ReuseDNSControllerFrom(prev) {
+				panic("ReuseDNSControllerFrom returned false")
+			}
+			cp = next
+			ctrl = next.dnsController
 		case "reload":
 			// reload hand-over as ControlPlane does it: clone the cache, a new generation with a fresh
 			// core/tracker and a cleared kernel map, new rule set (bitmaps2), replay the cloned entries.
@@ -361,3 +413,10 @@ func TestVerifC10Ctl(t *testing.T) {
 		return c10CtlRun(cs)
 	})
 }
+
+// c10CtlMatcher: the domain matcher of a generation as the harness's bitmap table
+type c10CtlMatcher func(fqdn string) []uint32
+
+func (m c10CtlMatcher) AddSet(int, []string, consts.RoutingDomainKey) {}
+func (m c10CtlMatcher) Build() error                                  { return nil }
+func (m c10CtlMatcher) MatchDomainBitmap(domain string) []uint32      { return m(domain) }
